@@ -390,7 +390,7 @@ pub fn run(tier: Tier, seed: u64) -> i32 {
 
     // T7: whatever with_signals accepts from the C11 menu must run without panicking
     {
-        let menu: Vec<Sig> = vec![Sig::inp("A", 4, 0), Sig::out("A", 4), Sig::bidir("A", 4, V::Num(2)), Sig::inp("B", 4, 1), Sig::out("Q", 4), Sig::inp("Q", 4, 0), Sig::bidir("Q", 4, V::Z), Sig::out("A_out", 4), Sig::out("V", 4), Sig::inp("A_out", 4, 0), Sig::inp("Q_out", 1, 1)];
+        let menu: Vec<Sig> = vec![Sig::inp("A", 4, 0), Sig::out("A", 4), Sig::bidir("A", 4, V::Num(18)), Sig::inp("B", 4, 1), Sig::out("Q", 4), Sig::inp("Q", 4, 0), Sig::bidir("Q", 4, V::Z), Sig::out("A_out", 4), Sig::out("V", 4), Sig::inp("A_out", 4, 0), Sig::inp("Q_out", 1, 1)];
         let lists: Vec<Vec<Sig>> = sequences(menu.len(), 2).into_iter().map(|l| l.into_iter().map(|i| menu[i].clone()).collect()).collect();
         let cols = ["A", "B", "Q", "A_out", "Q_out", "V"];
         let headers: Vec<Vec<String>> = ordered_selections(cols.len(), 3).into_iter().filter(|h| !h.is_empty()).map(|h| h.into_iter().map(|i| cols[i].to_string()).collect()).collect();
